@@ -375,6 +375,12 @@ def _infeasible_edges(f, tt, assume, K, ses_nonnull=False):
                 continue
             if impossible(('cmp', a[1], tv, ('const', c)), reach, depth + 1):
                 continue
+            if tv[0] == 'cmp' and c == 0:
+                # the incoming value is itself a comparison (`ok = a && b`): it must be true (ne) / false (eq) on this edge
+                need = tv if a[1] == 'ne' else ('cmp', NEG[tv[1]], tv[2], tv[3])
+                Kb2 = set(K) | base | set(norm_atom(x) for x in ea if x[0] == 'cmp')
+                if _refuted(need, Kb2):
+                    continue
             return False
         return True
     changed = True
@@ -401,12 +407,15 @@ def _reject_edges(prog, f, tt, assume, K, ses_nonnull=False):
     from .rules_decode import edge_is_error, nonerror_returns, subst_params
     removed = _infeasible_edges(f, tt, assume, K, ses_nonnull)
     reach = f.reachable(f.entry, removed=removed)
+    # error edges (allocation failure, also when it is reported through the status of a helper expanded in place) are exempt
+    from .rules_decode import error_free_reach
+    err_edges = set(error_free_reach(prog, f)[1])
     out = []
     for b in f.blocks:
         if b.id not in reach:
             continue
         for s2, lab in out_edges(b):
-            if lab is None or (b.id, s2.id) in removed:
+            if lab is None or (b.id, s2.id) in removed or (b.id, s2.id) in err_edges:
                 continue
             if not _only_nonok(f, s2, b) or _only_nonok(f, b, None):
                 continue
